@@ -1,5 +1,5 @@
 ------------------------------ MODULE DiscTrace ------------------------------
-EXTENDS LockDiscipline, Json, IOUtils
+EXTENDS HappensBefore, Json, IOUtils
 VARIABLES S, node, err, kf, taint
 T == ndJsonDeserialize(IOEnv.TRACE)
 TOut(s, e)   == Out(s, e.op)
